@@ -66,3 +66,55 @@ def gen(n, ret='R', fail_at=None, tag='g'):
 
 def make_list(n):
   return list(range(n))
+
+
+# ---- pipelines for the distributed drivers (C16 / C06b / C03) -----------------
+
+class SumCount:
+  """A transparent exact aggregate: (sum, count) of all rows."""
+
+  def create_state(self):
+    return (0, 0)
+
+  def update_state(self, state, xs):
+    xs = list(xs)
+    return (state[0] + sum(int(x) for x in xs), state[1] + len(xs))
+
+  def merge_states(self, states):
+    s = c = 0
+    for a, b in states:
+      s, c = s + a, c + b
+    return (s, c)
+
+  def get_result(self, state):
+    return state
+
+
+def sharded_rows(total, batch_size, shard_index=0, num_shards=1):
+  """Batches of unique ints; batch j goes to shard j % num_shards."""
+  num_batches, remainder = divmod(total, batch_size)
+  for j in range(num_batches):
+    if j % num_shards == shard_index:
+      yield [j * 100 + r for r in range(batch_size)]
+  if not shard_index and remainder:
+    yield [num_batches * 100 + r for r in range(remainder)]
+
+
+def times10(xs):
+  return [x * 10 for x in xs]
+
+
+def sharded_pipeline(total, batch_size, shard_index=0, num_shards=1, fuse=True,
+                     num_threads=0, agg=True):
+  from ml_metrics._src.chainables import transform
+  data = transform.TreeTransform.new(name='datasource').data_source(
+      sharded_rows(total, batch_size, shard_index, num_shards))
+  apply = transform.TreeTransform.new(
+      name='apply', num_threads=num_threads).apply(fn=times10)
+  if not agg:
+    return data.chain(apply)
+  if fuse:
+    return data.chain(apply.aggregate(output_keys='stats', fn=SumCount()))
+  return data.chain(apply).chain(
+      transform.TreeTransform.new(name='agg').aggregate(
+          output_keys='stats', fn=SumCount()))
